@@ -317,6 +317,12 @@ func RunC01(env *Env, rep *Report) {
 		for _, e := range expandGotos(sh) {
 			cases = append(cases, c01Case(e, "c01/deadcode/"+ShString(e)))
 		}
+		// the same with a conditional goto in front that enters the dead code
+		// through its label
+		withGoto := append([]*Sh{{K: "if", Blocks: [][]*Sh{{{K: "goto"}}}}}, cloneSh(sh)...)
+		for _, e := range expandGotos(withGoto) {
+			cases = append(cases, c01Case(e, "c01/deadcode-entered/"+ShString(e)))
+		}
 	}
 	if len(cases) > 0 {
 		src, _ := cases[len(cases)/2].Prog.Render()
